@@ -369,8 +369,8 @@ pub fn c16(seed: u64, n: usize) {
                 emit_invc5("C16", &format!("{}/prev-{}", fam, pf), &ks, &pose, &prev, Some(&q));
             }
             if i % 4 != 3 {
-                // one coupling in the stack: the joints the inner robot sees are q with q[c] += s * q[d]
-                let mut inner = q; inner[c] += s * q[d];
+                // one coupling in the stack: the joints the inner robot sees are q with q[c] -= s * q[d]
+                let mut inner = q; inner[c] -= s * q[d];
                 // the previous vector solves the pose on the INNER robot (taken from the bare model), not on the wrapper
                 emit_invc("C16", &format!("{}/prev-inner-solution", fam), &ks, &pose, &inner, Some(&q));
                 // inside the wrist-singularity band but not at zero, previous = the answer: the continuation appends a ninth
@@ -378,7 +378,7 @@ pub fn c16(seed: u64, n: usize) {
                 let mut th = rand_joints(&mut r, 2.0);
                 th[4] = *r.pick(&[5e-5, -5e-5, 1e-4, -2e-5]);
                 let inner2 = joints_of_theta(&p, &th);
-                let mut q2 = inner2; q2[c] = inner2[c] - s * inner2[d];
+                let mut q2 = inner2; q2[c] = inner2[c] + s * inner2[d];
                 let pose2 = k.forward(&q2);
                 emit_invc("C16", &format!("{}/in-singular-band/prev-origin", fam), &ks, &pose2, &q2, Some(&q2));
             }
